@@ -73,24 +73,21 @@ theorem run_emits_held (i e n : Nat) (l : Ledger) (rest : List Ev) :
 /-- no-emit turn (`emits = 0`): nothing to restore -/
 theorem emitEvents_zero (i e : Nat) : emitEvents i e 0 = [] := rfl
 
-def ownedBytes (c : CastOutcome) (ei : ExtIn) (sz : Sizes) : Nat :=
-  if c = .ok then sz.c else if ei = .ok then sz.x else 0
+def ownedBytes (c : CastOutcome) (ei : ExtIn) (both : Bool) (sz : Sizes) : Nat :=
+  if c = .ok then sz.c + (if both && ei = .ok then sz.x else 0) else if ei = .ok then sz.x else 0
 
-theorem outstanding_owned (c : CastOutcome) (ei : ExtIn) (sz : Sizes) (i : Nat) (l : Ledger) :
-    outstanding (ownedInput c ei sz i ++ l) = outstanding l + ownedBytes c ei sz := by
-  unfold ownedInput ownedBytes
-  split
-  · simp [outstanding]; omega
-  · split <;> simp [outstanding]; omega
+theorem outstanding_owned (c : CastOutcome) (ei : ExtIn) (both : Bool) (sz : Sizes) (i : Nat) (l : Ledger) :
+    outstanding (ownedInput c ei both sz i ++ l) = outstanding l + ownedBytes c ei both sz := by
+  cases c <;> cases ei <;> cases both <;> simp [ownedInput, ownedBytes, outstanding] <;> omega
 
 /-- resolving and casting the input leaves exactly the owned replacement on top of the ledger -/
-theorem run_pre (c : CastOutcome) (ei : ExtIn) (sz : Sizes) (i : Nat) (l : Ledger) (rest : List Ev) :
-    run l (preEvents c ei sz i ++ rest) = run (ownedInput c ei sz i ++ l) rest := by
-  cases c <;> cases ei <;> simp [preEvents, ownedInput, run, release]
+theorem run_pre (c : CastOutcome) (ei : ExtIn) (both : Bool) (sz : Sizes) (i : Nat) (l : Ledger) (rest : List Ev) :
+    run l (preEvents c ei both sz i ++ rest) = run (ownedInput c ei both sz i ++ l) rest := by
+  cases c <;> cases ei <;> cases both <;> simp [preEvents, ownedInput, run, release]
 
-theorem run_post (c : CastOutcome) (ei : ExtIn) (sz : Sizes) (i : Nat) (l : Ledger) (rest : List Ev) :
-    run (ownedInput c ei sz i ++ l) (postEvents c ei i ++ rest) = run l rest := by
-  cases c <;> cases ei <;> simp [postEvents, ownedInput, run, release]
+theorem run_post (c : CastOutcome) (ei : ExtIn) (both : Bool) (sz : Sizes) (i : Nat) (l : Ledger) (rest : List Ev) :
+    run (ownedInput c ei both sz i ++ l) (postEvents c ei both i ++ rest) = run l rest := by
+  cases c <;> cases ei <;> cases both <;> simp [postEvents, ownedInput, run, release]
 
 /-- the turn never reaches its handler: cancel, external resolve error, cast error -/
 def noHandler (k : Kind) (w : Wire) (t : Turn) : Prop :=
@@ -107,7 +104,7 @@ theorem turn_balanced (k : Kind) (w : Wire) (sz : Sizes) (i : Nat) (t : Turn) (l
       match run l rest with
       | some (l', s) =>
         if noHandler k w t then some (l', s)
-        else some (l', (outstanding l + ownedBytes (castOf k w t.bad) t.extIn sz) :: s)
+        else some (l', (outstanding l + ownedBytes (castOf k w t.bad) t.extIn t.both sz) :: s)
       | none => none := by
   have passthrough : ∀ (v : Nat), noHandler k w t → (match run l rest with
       | some (l', s) => if noHandler k w t then some (l', s) else some (l', v :: s)
@@ -138,16 +135,16 @@ theorem turn_balanced (k : Kind) (w : Wire) (sz : Sizes) (i : Nat) (t : Turn) (l
           unfold noHandler; rw [hco]; simp [hc, he]
         -- every branch is  pre ++ sample :: emits ++ tail ++ post  with tail = held or []
         have key : ∀ tail : List Ev, (tail = (if t.emits ≥ 1 then [Ev.rel (.emit i 0)] else []) ∨ (tail = [] ∧ t.emits = 0)) →
-            run l ((preEvents .none t.extIn sz i ++ (Ev.sample :: emitEvents i sz.e t.emits) ++ tail ++
-              postEvents .none t.extIn i) ++ rest) =
+            run l ((preEvents .none t.extIn t.both sz i ++ (Ev.sample :: emitEvents i sz.e t.emits) ++ tail ++
+              postEvents .none t.extIn t.both i) ++ rest) =
               match run l rest with
-              | some (l', s) => some (l', (outstanding l + ownedBytes .none t.extIn sz) :: s)
+              | some (l', s) => some (l', (outstanding l + ownedBytes .none t.extIn t.both sz) :: s)
               | none => none := by
           intro tail ht
           simp only [List.append_assoc]
           rw [run_pre]
           simp only [List.cons_append, run]
-          have : run (ownedInput .none t.extIn sz i ++ l) (emitEvents i sz.e t.emits ++ (tail ++ (postEvents .none t.extIn i ++ rest))) =
+          have : run (ownedInput .none t.extIn t.both sz i ++ l) (emitEvents i sz.e t.emits ++ (tail ++ (postEvents .none t.extIn t.both i ++ rest))) =
               run l rest := by
             rcases ht with ht | ⟨ht, h0⟩
             · rw [ht, ← List.append_assoc, run_emits_held, run_post]
@@ -172,16 +169,16 @@ theorem turn_balanced (k : Kind) (w : Wire) (sz : Sizes) (i : Nat) (t : Turn) (l
         have hn : ¬ noHandler k w t := by
           unfold noHandler; rw [hco]; simp [hc, he]
         have key : ∀ tail : List Ev, (tail = (if t.emits ≥ 1 then [Ev.rel (.emit i 0)] else []) ∨ (tail = [] ∧ t.emits = 0)) →
-            run l ((preEvents .ok t.extIn sz i ++ (Ev.sample :: emitEvents i sz.e t.emits) ++ tail ++
-              postEvents .ok t.extIn i) ++ rest) =
+            run l ((preEvents .ok t.extIn t.both sz i ++ (Ev.sample :: emitEvents i sz.e t.emits) ++ tail ++
+              postEvents .ok t.extIn t.both i) ++ rest) =
               match run l rest with
-              | some (l', s) => some (l', (outstanding l + ownedBytes .ok t.extIn sz) :: s)
+              | some (l', s) => some (l', (outstanding l + ownedBytes .ok t.extIn t.both sz) :: s)
               | none => none := by
           intro tail ht
           simp only [List.append_assoc]
           rw [run_pre]
           simp only [List.cons_append, run]
-          have : run (ownedInput .ok t.extIn sz i ++ l) (emitEvents i sz.e t.emits ++ (tail ++ (postEvents .ok t.extIn i ++ rest))) =
+          have : run (ownedInput .ok t.extIn t.both sz i ++ l) (emitEvents i sz.e t.emits ++ (tail ++ (postEvents .ok t.extIn t.both i ++ rest))) =
               run l rest := by
             rcases ht with ht | ⟨ht, h0⟩
             · rw [ht, ← List.append_assoc, run_emits_held, run_post]
@@ -208,19 +205,17 @@ its handlers takes is the starting level plus at most that turn's own replacemen
 batch, or its externally resolved batch) — nothing accumulates across turns. -/
 theorem stream_balanced (k : Kind) (w : Wire) (sz : Sizes) : ∀ (turns : List Turn) (i : Nat) (l : Ledger),
     ∃ s, run l (streamEvents k w sz i turns) = some (l, s) ∧
-      ∀ x ∈ s, x = outstanding l ∨ x = outstanding l + sz.c ∨ x = outstanding l + sz.x
+      ∀ x ∈ s, x = outstanding l ∨ x = outstanding l + sz.c ∨ x = outstanding l + sz.x ∨
+        x = outstanding l + (sz.c + sz.x)
   | [], i, l => ⟨[], rfl, by simp⟩
   | t :: rest, i, l => by
     obtain ⟨s, hs, hb⟩ := stream_balanced k w sz rest (i + 1) l
-    have hob : ∀ c ei, outstanding l + ownedBytes c ei sz = outstanding l ∨
-        outstanding l + ownedBytes c ei sz = outstanding l + sz.c ∨
-        outstanding l + ownedBytes c ei sz = outstanding l + sz.x := by
-      intro c ei; unfold ownedBytes
-      split
-      · exact Or.inr (Or.inl rfl)
-      · split
-        · exact Or.inr (Or.inr rfl)
-        · exact Or.inl rfl
+    have hob : ∀ c ei b, outstanding l + ownedBytes c ei b sz = outstanding l ∨
+        outstanding l + ownedBytes c ei b sz = outstanding l + sz.c ∨
+        outstanding l + ownedBytes c ei b sz = outstanding l + sz.x ∨
+        outstanding l + ownedBytes c ei b sz = outstanding l + (sz.c + sz.x) := by
+      intro c ei b
+      cases c <;> cases ei <;> cases b <;> simp [ownedBytes]
     simp only [streamEvents]
     cases hgo : (turnEvents k w sz i t).2 with
     | true =>
@@ -233,7 +228,7 @@ theorem stream_balanced (k : Kind) (w : Wire) (sz : Sizes) : ∀ (turns : List T
         intro x hx
         simp only [List.mem_cons] at hx
         rcases hx with hx | hx
-        · subst hx; exact hob _ _
+        · subst hx; exact hob _ _ _
         · exact hb x hx
     | false =>
       simp only [Bool.false_eq_true, if_false]
@@ -245,7 +240,7 @@ theorem stream_balanced (k : Kind) (w : Wire) (sz : Sizes) : ∀ (turns : List T
       · refine ⟨_, rfl, ?_⟩
         intro x hx
         simp only [List.mem_cons, List.not_mem_nil, or_false] at hx
-        subst hx; exact hob _ _
+        subst hx; exact hob _ _ _
 
 /-- **balanced**: for every call script, the dispatch path never releases a batch it does not hold
 and ends with no framework allocation outstanding; during a stream no handler ever sees more than
@@ -256,7 +251,7 @@ theorem balanced (c : Call) :
       | .unary _ _ => ∀ x ∈ s, x = 0
       | .unaryExt _ _ => ∀ x ∈ s, x = 0
       | .unaryIn _ sz => ∀ x ∈ s, x = sz.x
-      | .stream _ _ sz _ => ∀ x ∈ s, x = 0 ∨ x = sz.c ∨ x = sz.x
+      | .stream _ _ sz _ => ∀ x ∈ s, x = 0 ∨ x = sz.c ∨ x = sz.x ∨ x = sz.c + sz.x
       | .castInput _ _ sz => ∀ x ∈ s, x = sz.e ∨ x = sz.c + sz.e := by
   cases c with
   | unary m sz =>
@@ -279,10 +274,10 @@ def sz0 : Sizes := { r := 256, e := 128, c := 64 }
 /-- an exchange with casts: emit, refused double emit, error after emit, and a turn that is never
 reached -/
 example : run [] (callEvents (.stream .xch .i32 sz0
-    [⟨1, .ok, false, false, false, false, .none⟩, ⟨3, .ok, false, false, false, false, .none⟩, ⟨1, .err, false, false, false, false, .none⟩])) = some ([], [64, 64]) := by decide
+    [⟨1, .ok, false, false, false, false, .none, false⟩, ⟨3, .ok, false, false, false, false, .none, false⟩, ⟨1, .err, false, false, false, false, .none, false⟩])) = some ([], [64, 64]) := by decide
 
 example : run [] (callEvents (.stream .prod .i64 sz0
-    [⟨1, .ok, false, false, false, false, .none⟩, ⟨0, .ok, false, false, false, false, .none⟩])) = some ([], [0, 0]) := by decide
+    [⟨1, .ok, false, false, false, false, .none, false⟩, ⟨0, .ok, false, false, false, false, .none, false⟩])) = some ([], [0, 0]) := by decide
 
 /-- the ledger does notice a missing release: drop the collector's release and bytes stay -/
 example : run [] [.sample, .acq (.emit 0 0) 128] = some ([(.emit 0 0, 128)], [0]) := by decide
@@ -291,7 +286,7 @@ example : run [] [.rel (.cast 0)] = none := by decide
 /-- the pipe breaks while turn 1's output is written: the turn still releases everything, turn 2
 never runs -/
 example : run [] (callEvents (.stream .xch .i32 sz0
-    [⟨1, .ok, false, false, false, false, .none⟩, ⟨1, .ok, false, true, false, false, .none⟩, ⟨1, .ok, false, false, false, false, .none⟩])) =
+    [⟨1, .ok, false, false, false, false, .none, false⟩, ⟨1, .ok, false, true, false, false, .none, false⟩, ⟨1, .ok, false, false, false, false, .none, false⟩])) =
     some ([], [64, 64]) := by decide
 
 /-- external cap: refused before the upload, and uploaded-then-refused -/
@@ -301,13 +296,16 @@ example : run [] (callEvents (.unaryExt .refusedPost sz0)) = some ([], [0]) := b
 /-- external inputs on a pipe exchange: resolved and cast (the handler sees only the cast batch),
 resolved without a cast (it sees the resolved batch), refused -/
 example : run [] (callEvents (.stream .xch .i32 { sz0 with x := 192 }
-    [⟨1, .ok, false, false, false, false, .ok⟩, ⟨1, .ok, false, false, false, false, .err⟩])) = some ([], [64]) := by decide
+    [⟨1, .ok, false, false, false, false, .ok, false⟩, ⟨1, .ok, false, false, false, false, .err, false⟩])) = some ([], [64]) := by decide
 example : run [] (callEvents (.stream .xch .i64 { sz0 with x := 192 }
-    [⟨1, .ok, false, false, false, false, .ok⟩, ⟨1, .err, false, false, false, false, .ok⟩])) = some ([], [192, 192]) := by decide
+    [⟨1, .ok, false, false, false, false, .ok, false⟩, ⟨1, .err, false, false, false, false, .ok, false⟩])) = some ([], [192, 192]) := by decide
 example : run [] (callEvents (.unaryIn true { sz0 with x := 192 })) = some ([], [192]) := by decide
+/-- HTTP exchange: an input that is resolved AND cast keeps both replacements until the turn returns -/
+example : run [] (callEvents (.stream .xch .i32 { sz0 with x := 192 }
+    [⟨1, .ok, false, false, false, false, .ok, true⟩])) = some ([], [256]) := by decide
 /-- the state stops being serializable after turn 1 (HTTP exchange): the emitted batch is released -/
 example : run [] (callEvents (.stream .xch .i64 sz0
-    [⟨1, .ok, false, false, false, false, .none⟩, ⟨1, .ok, false, false, false, true, .none⟩])) = some ([], [0, 0]) := by decide
+    [⟨1, .ok, false, false, false, false, .none, false⟩, ⟨1, .ok, false, false, false, true, .none, false⟩])) = some ([], [0, 0]) := by decide
 
 /-- a two-column input whose second column fails the cast: nothing stays behind -/
 example : run [] (callEvents (.castInput .two true sz0)) = some ([], [128]) := by decide
